@@ -6,7 +6,12 @@ CONSTANTS
   FlavourSets = {{"SHA1", "SHA256"}}
   Mode = "code"
   Runs = 1
+  FlavourPhase = 9
+  FaultKinds = {"none", "patchCorrupt", "patchTruncated", "badLastPatch", "wrongResultHash", "indexMissing", "indexGarbage", "indexEmpty", "writeFails", "renameFails"}
+  Entries = {"update_file"}
   RememberIndex = FALSE
   Emit = FALSE
+  EmitEvery = 1
+  EmitPhase = 0
 PROPERTY Terminates
 CHECK_DEADLOCK FALSE
